@@ -1,3 +1,4 @@
+import RxnModel.Generated.Facts
 import RxnModel.Proofs.Store
 import RxnModel.Proofs.Publish
 /-!
@@ -170,6 +171,29 @@ theorem ids_increase_across_restarts (files0 : List Nat) (as : List Publish.Act)
   refine ⟨fun w hw => ?_, Nat.lt_succ_self _, h'.2.2.2.1⟩
   have := hi.wrCid w hw
   omega
+
+/-- Restart from a savepoint (`LoadCheckpoint` with a savepoint URI, e.g. into a fresh storage location): every
+id handed out afterwards is greater than the restored savepoint's id, and ids keep increasing strictly.
+(`_partial`: on this path the code does not look at job snapshot files already in the local storage, so ids of
+files there that are newer than the savepoint are not excluded — the job's own comment calls the savepoint
+start mode provisional; see the report.) -/
+theorem ids_after_savepoint_restart_partial (id : Nat) (calls : List Call) :
+    (∀ n ∈ createdIds (loadFromSavepoint id) calls, id < n) ∧
+    (createdIds (loadFromSavepoint id) calls).Pairwise (· < ·) ∧
+    ((published (loadFromSavepoint id) calls).map (·.id)).Pairwise (· < ·) ∧
+    (∀ snap ∈ published (loadFromSavepoint id) calls, id < snap.id) := by
+  have hi : Inv [] (loadFromSavepoint id) := by intro p hp; simp [loadFromSavepoint] at hp
+  refine ⟨created_gt calls _, created_pairwise calls _, published_pairwise calls [] _ hi, ?_⟩
+  intro snap hs
+  have := published_ge calls [] _ hi snap hs
+  simpa [loadFromSavepoint] using this
+
+/-- The regenerated code shape the sequential model relies on: every public call of the store is one `stateMu`
+critical section, `finishSnapshot` keeps that lock across `sourceSplitter.Checkpoint()` (so a finished snapshot
+is never visible as pending to another call), and `LoadCheckpoint` takes the id counter from the loaded
+checkpoint. -/
+theorem calls_atomic :
+    Facts.c12CallsAtomic = 1 ∧ Facts.c12FinishHoldsLock = 1 ∧ Facts.c12LoadCounterFromLoaded = 1 := by decide
 
 /-- A savepoint request while a checkpoint is pending folds into it: same id, nothing new is started,
 nothing is published by the request, only the flag changes. -/
